@@ -9,26 +9,46 @@
    exercised by harness/c22_retrans.go; their model is Model/C22Corr.v mgr_run. *)
 From Coq Require Import String ZArith Bool List.
 From PS Require Import Model.Data Model.Actions Model.Fsm Model.History Model.FsmCorr Model.C22Corr
-  Gen.ConstsSwap Gen.Tables Proofs.C22.
+  Gen.ConstsSwap Gen.Tables Proofs.C22 Proofs.C22Msg.
 Import ListNotations.
 Open Scope Z_scope.
 
-(* The full statement over the tables of the code: for every history of a maker (any inputs the
-   environment can produce, crashes and restarts anywhere) (1) never two retransmitters, (2) a
-   retransmitter is live only while the stored swap announces the opening transaction or waits for
-   the taker's reaction, (3) the message handed to a retransmitter is opening_tx_broadcasted. *)
+(* The full statement over the tables of the code.  For every history of a maker swap from its
+   creation (any inputs the environment can produce - hist_ok -, any environment answers, crashes
+   after any effect and restarts anywhere):
+   (1) never two retransmitters;
+   (2) a retransmitter is live only while the stored swap announces the opening transaction or
+       waits for the taker's reaction;
+   (3) the message handed to a retransmitter is opening_tx_broadcasted ([msg_hist] judges the full
+       effect list of every step with [retrans_msg_ok]: every ERetransStart is directly followed by
+       the send of an MOtb). *)
 Definition C22_full : Prop :=
-  forall dec t, t = table_swap_out_receiver \/ t = table_swap_in_sender ->
-  forall m0 its, hist_ok tl_consts_gen dec t terminal_states (init_hstate m0) its = true ->
-    let '(h, live, never_two) := live_hist tl_consts_gen dec t terminal_states m0 its in
-    never_two = true /\
-    (live = true -> exists m, hs_machine h = Some m /\ str_mem (m_cur m) (live_states t) = true) /\
-    retrans_msg_ok (hs_trace h) = true.
+  forall dec t id ty role peer initiator privkey its,
+    t = table_swap_out_receiver \/ t = table_swap_in_sender ->
+    let m0 := fresh_machine id ty role peer initiator privkey in
+    hist_ok tl_consts_gen dec t terminal_states (init_hstate m0) its = true ->
+    (let '(h, live, never_two) := live_hist tl_consts_gen dec t terminal_states m0 its in
+     h = run_hist tl_consts_gen dec t terminal_states (init_hstate m0) its /\
+     never_two = true /\
+     (live = true -> exists m, hs_machine h = Some m /\ str_mem (m_cur m) (live_states t) = true)) /\
+    msg_hist tl_consts_gen dec t terminal_states m0 its =
+      (run_hist tl_consts_gen dec t terminal_states (init_hstate m0) its, true).
 
-(* Clause (3) is FALSE of the code (coq/Findings/F_C22_1.v: a premature opening_tx_broadcasted from
-   the peer makes the maker retransmit its stale NextMessage; root cause D10/C09).  Clauses (1) and
-   (2) hold for every history, even without hist_ok: c22_all_histories below; of clause (3) only
-   the two local facts of c22_announcement_message_partial are proved. *)
+(* It holds since the repair 5728a51 (an event the current state does not accept is rejected before
+   its context is applied).  Before, clause (3) was false: coq/Findings/F_C22_1.v (kept; it no
+   longer compiles against the repaired model). *)
+Theorem c22_full_holds : C22_full.
+Proof. exact full_holds. Qed.
+Print Assumptions c22_full_holds.
+
+(* clause (3) for EVERY table that passes [c22_msg_table_ok], from any machine that satisfies the
+   invariant [msg_inv] *)
+Theorem c22_message_clause_any_table : forall tc dec t terminal, c22_msg_table_ok t = true ->
+  forall m0 its, msg_inv t (m_cur m0) (m_data m0) = true ->
+    hist_ok tc dec t terminal (init_hstate m0) its = true ->
+    msg_hist tc dec t terminal m0 its = (run_hist tc dec t terminal (init_hstate m0) its, true).
+Proof. exact msg_hist_ok. Qed.
+Print Assumptions c22_message_clause_any_table.
 
 (* For EVERY table that passes the reflective check, every entry point of the service, every swap
    data and environment: if a retransmitter can only be live in a live state before the step
@@ -88,11 +108,10 @@ Theorem c22_example :
 Proof. exact example_folds. Qed.
 Print Assumptions c22_example.
 
-(* PARTIAL (clause 3 of C22_full): the retransmitter gets NextMessage, and NextMessage is the
-   opening_tx_broadcasted message whenever CreateAndBroadcastOpeningTransaction really built the
-   transaction.  Missing: that no opening_tx_broadcasted message is in the swap data when the maker
-   enters BroadcastOpeningTx - which is false (finding C22-F1). *)
-Theorem c22_announcement_message_partial : forall tc,
+(* the two local facts behind clause (3): the retransmitter gets NextMessage, and NextMessage is
+   the opening_tx_broadcasted message whenever CreateAndBroadcastOpeningTransaction built the
+   transaction *)
+Theorem c22_announcement_message_local : forall tc,
   (forall d w r w' es, act_send_message_retry d w = (r, w', es) ->
      existsb (fun e => match e with ERetransStart => true | _ => false end) es = true ->
      exists m, d_next_msg d = Some m /\ es = [ERetransStart; ESend (d_peer d) m] /\ r = (Ev_Succeeded, d)) /\
@@ -100,4 +119,4 @@ Theorem c22_announcement_message_partial : forall tc,
      exists o, d_otb d' = Some o /\ d_next_msg d' = Some (MOtb o) /\
                existsb (fun e => match e with EBroadcastOpening _ _ _ _ _ _ (Some _) => true | _ => false end) es = true).
 Proof. exact announcement_message_partial. Qed.
-Print Assumptions c22_announcement_message_partial.
+Print Assumptions c22_announcement_message_local.
